@@ -78,12 +78,13 @@ def run(ck):
     sat = [cs for cs in pp.calls() + [c for cl in f.closures_of(pp) for c in cl.calls()] if cs.name in ("saturating_duration_since", "checked_duration_since")]
     ck.verdict(bool(sat), "1", "T6-provenance", pp, "deadline->duration-saturates", "time to the next deadline is computed with a saturating subtraction (an expired timer yields a zero wait)", "time to the next deadline is not computed with a saturating/checked subtraction (an expired timer may panic or yield a huge wait)", site=pp.where())
     # pass-through of the caller's timeout
-    for q, callee, argn in (("EventLoop::dispatch", "dispatch_events", 1), ("EventLoop::run", "dispatch", 1)):
+    for q, callee, argn in (("EventLoop::dispatch", ("dispatch_events",), 1), ("EventLoop::run", ("dispatch", "dispatch_events"), 1)):
         b = ck.opt_body(q)
         if b is None:
             ck.anchor_missing("1", "T6-provenance", q)
             continue
-        cs = [c for c in b.calls() if c.name == callee and not b.is_cleanup(c.bb)]
+        cs = [c for c in b.calls() if c.name in callee and c.callee_body() is not None and not b.is_cleanup(c.bb)]
+        callee = "/".join(callee)
         ok = bool(cs) and all(T.resolves_to_arg(b, c.args[argn], 2) or any(r == ("arg", 2) for r, p in b.resolve(c.args[argn])) or T.tainted_by_call(b, c.args[argn], [x.bb for x in T.calls(b, name="into") if T.resolves_to_arg(b, x.args[0], 2)]) for c in cs)
         ck.verdict(ok, "1", "T6-provenance", b, "passes-caller-timeout-to:%s" % callee, "the caller's timeout is passed through unchanged", "%s does not pass the caller's timeout to %s" % (q, callee), site=b.where())
     dl = DispatchLoop(ck, "2")
@@ -93,7 +94,7 @@ def run(ck):
     if polls:
         p0 = polls[0]
         tl = op_place(p0.args[1])
-        ok = tl is not None and (tl["l"] == 2 or T.copy_chain_locals(b, p0.args[1]) & {2})
+        ok = tl is not None and (tl["l"] == 2 or T.copy_chain_locals(b, p0.args[1]) & {2} or any(r == ("arg", 2) and not p for r, p in b.resolve(p0.args[1])))
         ck.verdict(bool(ok), "1", "T6-provenance", b, "poll(timeout-parameter)", "Poll::poll receives the (possibly shortened) timeout parameter", "Poll::poll is not given dispatch_events' timeout", site=b.where(p0.bb))
     # ---- clause 2: zero timeout only when a synthetic event was produced ---------------------------------------------
     zero_stores = []
